@@ -11,6 +11,7 @@ F13 allocation proportional to a numeric argument.  Their witnesses are re-run o
 (KNOWN-FINDING lines); the generator excludes exactly those classes."""
 import itertools
 import os
+import re
 import resource
 import shutil
 import subprocess
@@ -284,6 +285,108 @@ def gen_script(rng):
     return "\n".join(lines) + "\n"
 
 
+# ---- structured programs: functions (plain and <scope>), if / else, bounded loops, with the scope-stack, variable and handle
+# commands inside the bodies (seed C07-w5-m2: a <scope> function whose body pops the scope stack below the function's own
+# frame).  No goto, no recursion, loops over finite arrays or with a condition that the body switches off first: every program
+# terminates by construction (function bodies keep the scope stack balanced: finding F31), so PANIC / ABORT / HANG is the
+# implementation's.
+FLOW_CMDS = ["set", "unset", "scope_push_stack", "scope_pop_stack", "scope_pop_stack", "clear_scope", "array", "array_push", "array_pop",
+             "release", "set_by_name", "unset_all_vars", "get_all_var_names", "map_put", "trigger_error", "is_defined", "get_by_name",
+             "array_length", "echo", "not", "equals", "concat"]
+
+
+def flow_line(rng, outs, in_fn=False):
+    cmd = rng.choice(FLOW_CMDS)
+    if in_fn and cmd == "scope_pop_stack":
+        # inside a function body a pop comes with its own push (finding F31: a body that pops the frame of a <scope> function
+        # makes the function's `end` fail; the witness of F31 covers that class)
+        a = flow_line(rng, outs, False)
+        return "scope_push_stack%s\n%s\n%s" % (rng.choice(["", " --copy a", " --copy a b nope"]),
+                                               "noop" if re.match(r"(out\d+ = )?scope_", a) else a,
+                                               rng.choice(["scope_pop_stack", "scope_pop_stack --copy a", "scope_pop_stack --copy x nope"]))
+    sig = SIGS[cmd]
+    args = []
+    i = 0
+    while i < len(sig):
+        code = sig[i]
+        if i + 1 < len(sig) and sig[i + 1] == "*":
+            for _ in range(rng.randint(0, 3)):
+                args.append(pick(rng, code, outs))
+            i += 2
+        else:
+            args.append(pick(rng, code, outs))
+            i += 1
+    fl = command_flags().get(cmd)
+    if fl and rng.random() < 0.4:
+        args = [rng.choice(fl)] + args
+    if any(a in HAZARD_WORDS for a in args):
+        return "noop"
+    line = cmd + "".join(" " + quote(a) for a in args)
+    if rng.random() < 0.5:
+        o = "out%d" % len(outs)
+        outs.append(o)
+        line = o + " = " + line
+    return line
+
+
+def gen_flow_script(rng):
+    lines = prelude() + ["lp9 = array p q r"]
+    outs = []
+    fns = []
+
+    def block(depth, in_fn, budget):
+        out = []
+        for _ in range(rng.randint(1, budget)):
+            r = rng.random()
+            if r < 0.5 or depth >= 3:
+                out.append(flow_line(rng, outs, in_fn))
+            elif r < 0.62:
+                out.append("if %s" % rng.choice(["true", "false", "${a}", "${nope}", "is_defined x", "not true", "true and false"]))
+                out += block(depth + 1, in_fn, 3)
+                if rng.random() < 0.4:
+                    out.append("elseif %s" % rng.choice(["true", "false", "${x}"]))
+                    out += block(depth + 1, in_fn, 2)
+                if rng.random() < 0.5:
+                    out.append("else")
+                    out += block(depth + 1, in_fn, 2)
+                out.append("end")
+            elif r < 0.74:
+                # the iterated array is one no other command of the program can name (a body that pushes onto the array it
+                # iterates is an endless loop by the program's own logic)
+                out.append("for it%d in %s" % (depth, rng.choice(["${lp9}", "${lp9}", "${s}", "${m}", "${rel}", "${nope}", "${a}"])))
+                out += block(depth + 1, in_fn, 3)
+                out.append("end")
+            elif r < 0.82:
+                w = "w%d" % depth
+                out.append("%s = set true" % w)
+                out.append("while ${%s}" % w)
+                out.append("%s = set false" % w)
+                out += block(depth + 1, in_fn, 2)
+                out.append("end")
+            elif r < 0.92 and fns:
+                f = rng.choice(fns)
+                call = f + "".join(" " + quote(pick(rng, "S", outs)) for _ in range(rng.randint(0, 3)))
+                if rng.random() < 0.6:
+                    o = "out%d" % len(outs)
+                    outs.append(o)
+                    call = o + " = " + call
+                out.append(call)
+            elif in_fn:
+                out.append(rng.choice(["return", "return ${1}", "return ${a}", "return \"x y\""]))
+            else:
+                out.append(flow_line(rng, outs, in_fn))
+        return out
+
+    for k in range(rng.randint(0, 3)):
+        name = "fn%d" % k
+        lines.append("fn %s%s" % (rng.choice(["", "", "<scope> "]), name))
+        lines += block(1, True, 5)
+        lines.append("end")
+        fns.append(name)
+    lines += block(0, False, 8)
+    return "\n".join(lines) + "\n"
+
+
 SYNTAX = [":", "=", "\"", "\\", "#", "!", "$", "%", "{", "}", " ", "\t", "a", "n", "\n", "\r"]
 
 
@@ -368,6 +471,9 @@ def witnesses(ck):
         "F23": "S\t" + enc_str("a = array x\narray_push ${a} ${a}\nr = json_encode --collection ${a}\n"),
         # eval_condition_for_slice recurses once per nesting level (condition.rs): ~10^5 nested groups overflow the stack
         "F30": "S\t" + enc_str("if " + "( " * 60000 + "true" + " )" * 60000 + "\nend\n"),
+        # a <scope> function whose body pops its own frame: `end` / `return` fail and do not return to the caller
+        "F31": "S\t" + enc_str("fn <scope> f\nscope_pop_stack\nend\nf\necho done\n"),
+        "F31#return": "S\t" + enc_str("fn <scope> f\nscope_pop_stack\nreturn x\nend\nr = f\necho done\n"),
     }
     exe = os.path.join(vlib.CARGO_TARGET, "release", "c07")
 
@@ -403,7 +509,7 @@ def run(ck):
     # shows the arm dead for all inputs (Src_strings_*: `defined`, Src_onerror_*: `Some`, Src_cli_dispatch: `Some`,
     # Src_condslice_total, Src_eval_instructions_step_no_panic, Src_parser_* over the index-faithful parser ...)
     for tie in ("parser", "expand", "registry", "cond", "condslice", "runner", "eval", "alias", "onerror", "strings", "cli",
-                "findcmds", "collections", "var", "include"):
+                "findcmds", "collections", "var", "include", "flowfor", "flowfn"):
         try:
             ck.source_tie(tie)
         except KeyError:
@@ -416,16 +522,22 @@ def run(ck):
     # known findings: witnesses
     wit = witnesses(ck)
     open_ids = {k["id"]: k for k in ck.open_findings()}
-    expect = {"F8": "HANG", "F12": "ABORT", "F13": "ABORT"}
-    for fid, r in wit.items():
+    found_early = False
+    for wid, r in wit.items():
+        fid = wid.split("#")[0]
         still = r.startswith("HANG") or r.startswith("ABORT") or r.startswith("PANIC")
         if fid in open_ids:
-            if still:
+            if fid == "F31" and r.startswith("PANIC"):
+                # the listed failure is a run that does not come back; a panic on the same script is another failure
+                ck.violation({"kind": "the witness of %s fails in another way than the listed one (listed: the run does not return)" % fid,
+                              "id": fid, "result": r, "script": open_ids[fid].get("witness", "")})
+                found_early = True
+            elif still and "#" not in wid:
                 ck.known("%s %s -> %s" % (fid, open_ids[fid].get("witness", ""), r))
         elif still:
             ck.violation({"kind": "witness of an unlisted finding fails", "id": fid, "result": r})
 
-    found = False
+    found = found_early
     texts = []
     # parser-level: arbitrary text
     nmax = 4 if thorough else 3
@@ -454,11 +566,14 @@ def run(ck):
                                       if in_known_class("range", [a_, b_]) is None else "noop",
                                       "h = hex_encode %s" % a_, "rr = random_range %s %s" % (a_, b_),
                                       "sub = substring hello %s %s" % (a_, b_)]) + "\n")
+    n_straight = len(scripts)
+    scripts += [gen_flow_script(rng) for _ in range(20000 if thorough else 3000)]
     lines = ["S\t" + enc_str(t) for t in texts + scripts]
     res = run_cases(ck, lines, "main")
     dist = {}
     cmds_seen = set()
     nontriv = set()
+    flow_words = {}
     for k, (line, r) in enumerate(zip(lines, res)):
         key = (r or "NONE").split(" ")[0]
         dist[key] = dist.get(key, 0) + 1
@@ -467,6 +582,8 @@ def run(ck):
             nontriv.add(src)
             for l in src.split("\n")[len(prelude()):]:
                 w = l.split(" = ", 1)[-1].split(" ")[0]
+                if w in ("fn", "if", "for", "while", "return", "elseif", "else", "end"):
+                    flow_words[w] = flow_words.get(w, 0) + 1
                 if w in SIGS:
                     cmds_seen.add(w)
         if r is None or r.startswith("PANIC") or r.startswith("ABORT") or r.startswith("HANG") or r == "BADLINE":
@@ -485,6 +602,10 @@ def run(ck):
         "exhaustive_part": {"texts": n_exh},
         "samples": [texts[n_exh // 2], scripts[0], scripts[-1]],
         "result_distribution": dist,
+        "structured_programs": {"generated": len(scripts) - n_straight, "flow_words": flow_words,
+                                "rule": "0-3 functions (a third of them <scope>), if/elseif/else, for over array/set/map/released/undefined "
+                                        "handles, while loops switched off by their body, nesting <= 3, bodies of scope-stack / variable / "
+                                        "handle commands, calls only to functions defined earlier (no recursion), no goto"},
         "commands_exercised": sorted(cmds_seen),
         "commands_excluded": EXCLUDED,
         "modelled_and_proved": ["%s.%s" % t for t in thms],
